@@ -87,6 +87,9 @@ def gen_model(seed):
     return ant, m, desc
 
 
+_ANGLES = {}
+
+
 def observe(m, op):
     from mininec.mininec import Angle
     kind = op[0]
@@ -103,7 +106,18 @@ def observe(m, op):
             kw['pwr'] = pwr
         if dist:
             kw['dist'] = dist
-        m.compute_far_field(Angle(*z), Angle(*a), **kw)
+        # half of the models are asked through one pair of Angle objects whose attributes the caller changes from request
+        # to request (a script scanning cuts): a request is the angles it names when it is made, not the object that carries them
+        if len(m.pulses) % 2 == 0:
+            ang = _ANGLES.get(id(m))
+            if ang is None:
+                ang = _ANGLES[id(m)] = (Angle(*z), Angle(*a), m)
+            else:
+                for obj, v in zip(ang, (z, a)):
+                    obj.initial, obj.inc, obj.number = v
+            m.compute_far_field(ang[0], ang[1], **kw)
+        else:
+            m.compute_far_field(Angle(*z), Angle(*a), **kw)
         ff = m.far_field
         return [np.array(ff.gain), np.array(ff.e_theta), np.array(ff.e_phi)]
     if kind == 'near':
